@@ -54,7 +54,7 @@ TYPES = {
 KINDS_FOR_USE = {"int": "C_INT", "long": "C_LONG", "short": "C_SHORT", "long long": "C_LONG_LONG", "unsigned int": "C_INT",
                  "size_t": "C_SIZE_T", "int32_t": "C_INT32_T", "int64_t": "C_INT64_T", "float": "C_FLOAT", "double": "C_DOUBLE"}
 
-IN_KINDS = {"val", "ptr_in", "ptr_inout", "ref_inout", "arr_in", "arr_inout", "implied", "cstr_in", "cstr_inout", "str_cref",
+IN_KINDS = {"cls_cptr", "val", "ptr_in", "ptr_inout", "ref_inout", "arr_in", "arr_inout", "implied", "cstr_in", "cstr_inout", "str_cref",
             "str_val", "str_cptr", "str_ref_inout", "str_ptr_inout", "vec_in", "vec_inout"}
 OUT_KINDS = {"ptr_inout", "ptr_out", "ref_inout", "ref_out", "arr_inout", "arr_out", "arr_out_fixed", "cstr_out", "cstr_inout",
              "str_ref_out", "str_ref_inout", "str_ptr_out", "str_ptr_inout", "vec_out", "vec_inout"}
@@ -212,6 +212,10 @@ def param_decl(p):
         return "std::string *%s +intent(out)" % n
     if k == "str_ptr_inout":
         return "std::string *%s" % n
+    if k == "cls_cptr":
+        return "const %s *%s" % (p["cls"], n)
+    if k == "len_hidden":
+        return "int *%s +intent(out)+hidden" % n
     if k == "vec_in":
         return "const std::vector<%s> &%s" % (T, n)
     if k == "vec_out":
@@ -237,6 +241,16 @@ def ret_decl(r):
         return "const std::string &", ""
     if k == "str_cref_len":
         return "const std::string &", " +len(%d)" % r["N"]
+    if k == "arr_ptr":
+        return "%s *" % r["T"], " +dimension(%s)+deref(%s)%s" % (r["len"], r["deref"], "+owner(caller)" if r.get("owner") == "caller" else "")
+    if k == "str_ptr_own":
+        return "const std::string *", " +owner(caller)"
+    if k == "vec_val":
+        return "std::vector<%s>" % r["T"], " +rank(1)"
+    if k == "cls_ptr":
+        return "%s *" % r["cls"], (" +owner(caller)" if r.get("owner") == "caller" else "")
+    if k == "cls_val":
+        return r["cls"], ""
     raise ValueError(k)
 
 
@@ -380,7 +394,9 @@ def impl_function(f, lang, qual=""):
         elif k in ("vec_in", "vec_inout"):
             hf, lf, _ = arr_fns(T)
             lines.append('    %s("%s", %s.data(), (long)%s.size()); vfD = vf_mix(vfD, %s(%s.data(), (long)%s.size()));' % (lf, n, n, n, hf, n, n))
-        elif k in ("ptr_out", "ref_out", "arr_out", "arr_out_fixed", "cstr_out", "str_ref_out", "str_ptr_out", "vec_out"):
+        elif k == "cls_cptr":
+            lines.append('    vf_log_i("%s", %s ? %s->serial : -1, 1); vfD = vf_mix(vfD, (unsigned long long)(%s ? %s->serial : -1));' % (n, n, n, n, n))
+        elif k in ("ptr_out", "ref_out", "arr_out", "arr_out_fixed", "cstr_out", "str_ref_out", "str_ptr_out", "vec_out", "len_hidden"):
             pass
         else:
             raise ValueError(k)
@@ -436,6 +452,44 @@ def impl_function(f, lang, qual=""):
         lines.append("    char vfb[64]; vf_out_str(vfb, 40, %s); std::string vfR(vfb); vf_log_s(\"ret\", vfR.data(), (long)vfR.size());" % dr)
         lines.append("    vf_end();")
         lines.append("    return vfR;")
+    elif r["kind"] == "arr_ptr":
+        _, lf, ff = arr_fns(r["T"])
+        ct = c_type(r["T"], lang)
+        lines.append("    long vfN = 1 + vf_out_len(%s);" % dr)
+        if r.get("owner") == "caller":
+            lines.append("    %s *vfR = (%s *) malloc(vfN * sizeof(%s));   /* caller owns; released with free() */" % (ct, ct, ct))
+        else:
+            lines.append("    static %s *vfR = NULL;   /* library-owned buffer, allocated once, reused by every call */" % ct)
+            lines.append("    if (vfR == NULL) vfR = (%s *) malloc(8 * sizeof(%s));" % (ct, ct))
+        lines.append('    %s(vfR, vfN, %s); %s("ret", vfR, vfN);' % (ff, dr, lf))
+        lines.append("    *%s = (int) vfN;" % r["len"])
+        lines.append("    vf_end();")
+        lines.append("    return vfR;")
+    elif r["kind"] == "str_ptr_own":
+        lines.append("    char vfb[64]; vf_out_str(vfb, 40, %s); std::string *vfR = new std::string(vfb); vf_log_s(\"ret\", vfR->data(), (long)vfR->size());" % dr)
+        lines.append("    vf_end();")
+        lines.append("    return vfR;")
+    elif r["kind"] == "vec_val":
+        _, lf, ff = arr_fns(r["T"])
+        lines.append("    std::vector<%s> vfR(vf_out_len(%s));" % (c_type(r["T"], lang), dr))
+        lines.append('    %s(vfR.data(), (long)vfR.size(), %s); %s("ret", vfR.data(), (long)vfR.size());' % (ff, dr, lf))
+        lines.append("    vf_end();")
+        lines.append("    return vfR;")
+    elif r["kind"] == "cls_ptr" and r.get("owner") != "caller":
+        lines.append("    static %s vfR((%s::vf_quiet()));   /* library-owned: created on first use, never released */" % (r["cls"], r["cls"]))
+        lines.append('    vf_log_i("ret", vfR.serial, 1);')
+        lines.append("    vf_end();")
+        lines.append("    return &vfR;")
+    elif r["kind"] == "cls_ptr":
+        lines.append("    %s *vfR = new %s((%s::vf_quiet()));   /* caller owns */" % (r["cls"], r["cls"], r["cls"]))
+        lines.append('    vf_log_i("ret", vfR->serial, 1);')
+        lines.append("    vf_end();")
+        lines.append("    return vfR;")
+    elif r["kind"] == "cls_val":
+        lines.append("    %s vfR((%s::vf_quiet()));" % (r["cls"], r["cls"]))
+        lines.append('    vf_log_i("ret", vfR.serial, 1);')
+        lines.append("    vf_end();")
+        lines.append("    return vfR;")
     elif r["kind"] in ("str_cref", "str_cref_len"):
         lines.append("    static std::string vfR; char vfb[64]; vf_out_str(vfb, %d, %s); vfR = vfb; vf_log_s(\"ret\", vfR.data(), (long)vfR.size());" % (
             40 if r["kind"] == "str_cref" else min(40, r["N"] + 8), dr))
@@ -487,6 +541,10 @@ def library_sources(lib):
                 h.append("    " + func_decl(f, cxx_only=True) + ";")
         if not any(f.get("cls") == c and f.get("dtor") for f in lib["functions"]):
             pass
+        h.append("    struct vf_quiet {};\n    explicit %s(vf_quiet);   /* library-internal construction: not logged */" % c)
+        h.append("    %s(const %s &o);" % (c, c))
+        if not any(f.get("cls") == c and f.get("dtor") for f in lib["functions"]):
+            h.append("    ~%s();" % c)
         h.append("    long serial;\n    unsigned long long digest;\n};")
     if lang == "c":
         h.append("#ifdef __cplusplus\nextern \"C\" {\n#endif")
@@ -508,6 +566,11 @@ def library_sources(lib):
         c.append("long vf_live_%s = 0;" % cl)
     for n in ns:
         c.append("namespace %s {" % n)
+    for cl in classes:
+        c.append("%s::%s(vf_quiet) { serial = ++vf_serial_counter; digest = 0; vf_live_%s++; }" % (cl, cl, cl))
+        c.append("%s::%s(const %s &o) { serial = o.serial; digest = o.digest; vf_live_%s++; }   /* a copy keeps the identity */" % (cl, cl, cl, cl))
+        if not any(f.get("cls") == cl and f.get("dtor") for f in lib["functions"]):
+            c.append("%s::~%s() { vf_live_%s--; }" % (cl, cl, cl))
     for f in lib["functions"]:
         if f.get("template"):
             for t in f["template"]:
@@ -548,6 +611,10 @@ def model_call(f, args, this_serial=None):
             v = len(args[p["of"]])
             recv[n] = repr_scalar(v, T)
             d = dmix(d, h_scalar(v, T))
+        elif k == "cls_cptr":
+            v = args[n]                      # serial of the object passed
+            recv[n] = "i:%d" % v
+            d = dmix(d, v & M64)
         elif k in ("val", "ptr_in", "ptr_inout", "ref_inout"):
             v = args[n]
             recv[n] = repr_scalar(v, T)
@@ -611,6 +678,13 @@ def model_call(f, args, this_serial=None):
     elif r["kind"] in ("cstr_len", "str_cref_len"):
         ret = out_string(dr, min(40, r["N"] + 8))
         send["ret"] = repr_str(ret)
+    elif r["kind"] == "str_ptr_own":
+        ret = out_string(dr, 40)
+        send["ret"] = repr_str(ret)
+    elif r["kind"] in ("arr_ptr", "vec_val"):
+        cnt = out_len(dr) + (1 if r["kind"] == "arr_ptr" else 0)
+        ret = [out_scalar(sub(dr, 1000 + i), r["T"]) for i in range(cnt)]
+        send["ret"] = repr_array(ret, r["T"])
     return {"recv": recv, "send": send, "out": out, "ret": ret, "digest": d}
 
 
